@@ -936,7 +936,7 @@ func (s *Script) appendValue(buf []byte, v any, prec byte) []byte {
 	case Expr:
 		buf = tv.Append(buf)
 	case *regexp.Regexp:
-		buf = AppendString(buf, tv.String(), '/')
+		buf = appendRegex(buf, tv)
 	case *precBuf:
 		if prec < tv.prec {
 			buf = append(buf, '(')
@@ -947,6 +947,27 @@ func (s *Script) appendValue(buf []byte, v any, prec byte) []byte {
 		}
 	}
 	return buf
+}
+
+// appendRegex appends the regexp between slashes. A slash in the expression is
+// escaped unless it already is so that the text can be parsed again.
+func appendRegex(buf []byte, rx *regexp.Regexp) []byte {
+	src := rx.String()
+	esc := make([]byte, 0, len(src)+2)
+	for i := 0; i < len(src); i++ {
+		switch src[i] {
+		case '\\':
+			esc = append(esc, src[i])
+			if i++; i < len(src) {
+				esc = append(esc, src[i])
+			}
+		case '/':
+			esc = append(esc, '\\', '/')
+		default:
+			esc = append(esc, src[i])
+		}
+	}
+	return AppendString(buf, string(esc), '/')
 }
 
 var builtInNames = map[string]bool{
